@@ -421,6 +421,8 @@ def main():
             obs += res[0]
             chk.validate(res[1])
     chk.run(obs)
+    from .c04 import sequence_keys
+    sequence_keys(chk, ["liesel:Gibbs+RW+RW(ids not sorted)"])          # three kernels in one sequence: every kernel call gets its own key
     chk.guarded("engine-seed", "EngineBuilder.set_engine_seed / build()", engine_seed_check, chk)
     chk.guarded("hashseed", "tracing build() under several hash seeds", hashseed_reproducibility, chk)
     chk.functions += ["liesel.goose.engine.Engine (key handling: _split_prng_key, _kernel_start_epoch, _sample_for_duration, _end_epoch, _tune_kernels, _end_warmup)", "liesel.goose.kernel_sequence.KernelSequence (key splitting)",
